@@ -16,6 +16,7 @@ import (
 	"strconv"
 	"strings"
 	"sync"
+	"time"
 
 	"github.com/AdguardTeam/golibs/hostsfile"
 	"github.com/AdguardTeam/golibs/netutil"
@@ -30,6 +31,7 @@ func init() {
 	vh.Register("c08", "record-parse", recordParse)
 	vh.Register("c08", "record-storage", recordStorage)
 	vh.Register("c08", "replay-one", replayOne)
+	vh.Register("c08", "replay-readers", replayReaders)
 }
 
 // replayOne re-executes the input of a replay file written by bin/check
@@ -208,6 +210,106 @@ func (c *stConc) build(ops []stOp) *hostsfile.DefaultStorage {
 	return s
 }
 
+// callerMem is the caller's record memory of HostsStorageMem.tla: ONE names
+// backing array with spare capacity in which every record is built, and the
+// result slices the caller kept from earlier queries.
+type callerMem struct {
+	buf       []string
+	keptNames []keptResult[string]
+	keptAddrs []keptResult[netip.Addr]
+}
+
+type keptResult[T comparable] struct {
+	what string
+	got  []T // the slice as returned
+	was  []T // its elements at that time
+}
+
+func newCallerMem() *callerMem { return &callerMem{buf: make([]string, 16)} }
+
+// add writes names into the reused buffer, calls s.Add with a record whose
+// Names slice points into it, verifies that Add wrote neither to the record
+// nor to the buffer (used part and spare capacity), and then overwrites the
+// whole buffer, as a caller building its next record would.
+func (m *callerMem) add(s *hostsfile.DefaultStorage, addr netip.Addr, names []string, source string) (what string) {
+	n := len(names)
+	if n > len(m.buf) {
+		m.buf = make([]string, 2*n)
+	}
+	copy(m.buf, names)
+	for i := n; i < len(m.buf); i++ {
+		m.buf[i] = "spare.invalid"
+	}
+	rec := &hostsfile.Record{Addr: addr, Names: m.buf[:n], Source: source}
+	s.Add(rec)
+	switch {
+	case rec.Addr != addr || rec.Source != source:
+		what = fmt.Sprintf("Add changed the record to {%v %q}", rec.Addr, rec.Source)
+	case len(rec.Names) != n || cap(rec.Names) != len(m.buf) || (n > 0 && &rec.Names[0] != &m.buf[0]):
+		what = fmt.Sprintf("Add changed rec.Names to %q (len %d cap %d)", rec.Names, len(rec.Names), cap(rec.Names))
+	case !slices.Equal(m.buf[:n], names):
+		what = fmt.Sprintf("Add(%v %q) rewrote the caller's names to %q", addr, names, m.buf[:n])
+	default:
+		for i := n; i < len(m.buf); i++ {
+			if m.buf[i] != "spare.invalid" {
+				what = fmt.Sprintf("Add(%v %q) wrote %q into the spare capacity of rec.Names", addr, names, m.buf[i])
+			}
+		}
+	}
+	for i := range m.buf {
+		m.buf[i] = fmt.Sprintf("overwritten-%d.invalid", i)
+	}
+	return what
+}
+
+func (m *callerMem) keepByAddr(s *hostsfile.DefaultStorage, a netip.Addr) {
+	got := s.ByAddr(a)
+	m.keptNames = append(m.keptNames, keptResult[string]{fmt.Sprintf("ByAddr(%v)", a), got, slices.Clone(got)})
+}
+
+func (m *callerMem) keepByName(s *hostsfile.DefaultStorage, n string) {
+	got := s.ByName(n)
+	m.keptAddrs = append(m.keptAddrs, keptResult[netip.Addr]{fmt.Sprintf("ByName(%q)", n), got, slices.Clone(got)})
+}
+
+// verifyKept: the elements of a result returned earlier never change (the
+// slices are not documented as copies; later Adds may only append).
+func (m *callerMem) verifyKept() string {
+	for _, k := range m.keptNames {
+		if !slices.Equal(k.got, k.was) {
+			return fmt.Sprintf("a result of %s returned earlier as %q now reads %q", k.what, k.was, k.got)
+		}
+	}
+	for _, k := range m.keptAddrs {
+		if !slices.Equal(k.got, k.was) {
+			return fmt.Sprintf("a result of %s returned earlier as %v now reads %v", k.what, k.was, k.got)
+		}
+	}
+	return ""
+}
+
+// buildReused feeds ops through one reused names buffer, keeping the results
+// of ByAddr / ByName after every Add.
+func (c *stConc) buildReused(ops []stOp) (s *hostsfile.DefaultStorage, what string) {
+	s, _ = hostsfile.NewDefaultStorage()
+	m := newCallerMem()
+	for _, op := range ops {
+		if w := m.add(s, c.addr[op.A], c.names(op.N), "src"); w != "" && what == "" {
+			what = w
+		}
+		for _, a := range []string{"x", "y"} {
+			m.keepByAddr(s, c.addr[a])
+		}
+		for _, n := range []string{"a", "A", "b"} {
+			m.keepByName(s, c.name[n])
+		}
+		if w := m.verifyKept(); w != "" && what == "" {
+			what = w
+		}
+	}
+	return s, what
+}
+
 // caseVariants returns spellings of n that differ in letter case only.
 func caseVariants(n string) []string {
 	out := []string{n, strings.ToUpper(n), strings.ToLower(n)}
@@ -348,7 +450,16 @@ func replayStorage(args []string) error {
 			c := &stConcs[ci]
 			var what string
 			pv, panicked := vh.Try(func() {
-				s := c.build(v.Ops)
+				// Odd concretisations build every record in one reused names
+				// buffer that is overwritten after each Add (HostsStorageMem).
+				var s *hostsfile.DefaultStorage
+				if ci%2 == 1 {
+					if s, what = c.buildReused(v.Ops); what != "" {
+						return
+					}
+				} else {
+					s = c.build(v.Ops)
+				}
 				if what = checkStorage(s, c, v.Names, v.Addrs); what != "" {
 					return
 				}
@@ -387,6 +498,203 @@ func replayStorage(args []string) error {
 		return err
 	}
 	return res.Close(map[string]any{"vectors": n, "replayed": evals, "distinct_nontrivial": dd.N() - 1, "adds": adds})
+}
+
+// =================================================================== readers
+
+// rdVec is a vector of HostsReadersGen.tla.
+type rdVec struct {
+	Readers [][]stOp `json:"readers"`
+	Fail    int      `json:"fail"`
+	Names   strMap   `json:"names"`
+	Addrs   strMap   `json:"addrs"`
+	Sens    bool     `json:"sens"`
+}
+
+var errInjected = errors.New("injected read failure")
+
+// failAtEnd delivers its data and then fails instead of reporting io.EOF.
+type failAtEnd struct{ r io.Reader }
+
+func (f failAtEnd) Read(p []byte) (int, error) {
+	n, err := f.r.Read(p)
+	if err == io.EOF {
+		err = errInjected
+	}
+	return n, err
+}
+
+// slowReader delivers its data in four chunks, sleeping before each and
+// before EOF, while the other readers are instant.
+type slowReader struct {
+	data []byte
+	pos  int
+}
+
+func (r *slowReader) Read(p []byte) (int, error) {
+	time.Sleep(2 * time.Millisecond)
+	if r.pos >= len(r.data) {
+		return 0, io.EOF
+	}
+	k := min(len(p), max(1, (len(r.data)+3)/4), len(r.data)-r.pos)
+	copy(p, r.data[r.pos:r.pos+k])
+	r.pos += k
+	return k, nil
+}
+
+// render writes the records of one reader as hosts text, with lines that
+// carry no record (comment, blank, invalid) sprinkled in.
+func (c *stConc) render(rng *rand.Rand, recs []stOp) []byte {
+	var b []byte
+	noise := []string{"", "# comment", "  \t", "1.2.3.4", "256.1.1.1 bad.example", "1.2.3.4 bad..name", "#" + c.name["b"]}
+	nl := func() {
+		if rng.IntN(3) == 0 {
+			b = append(b, '\r')
+		}
+		b = append(b, '\n')
+	}
+	for i, r := range recs {
+		if rng.IntN(3) == 0 {
+			b = append(b, noise[rng.IntN(len(noise))]...)
+			nl()
+		}
+		b = append(b, c.addr[r.A].String()...)
+		for _, n := range r.N {
+			b = append(b, " \t"[rng.IntN(2)])
+			b = append(b, c.name[n]...)
+		}
+		if rng.IntN(4) == 0 {
+			b = append(b, " # "+c.name["a"]...)
+		}
+		if i < len(recs)-1 || rng.IntN(3) > 0 {
+			nl()
+		}
+	}
+	return b
+}
+
+func readersKey(c *stConc, v *rdVec, slow bool) string {
+	var b strings.Builder
+	fmt.Fprintf(&b, "NewDefaultStorage[x=%v y=%v a=%s A=%s b=%s](", c.addr["x"], c.addr["y"], c.name["a"], c.name["A"], c.name["b"])
+	for i, r := range v.Readers {
+		if i > 0 {
+			b.WriteString(" | ")
+		}
+		for _, o := range r {
+			fmt.Fprintf(&b, "%s:%s;", o.A, strings.Join(o.N, ","))
+		}
+	}
+	fmt.Fprintf(&b, ") fail=%d", v.Fail)
+	if slow {
+		b.WriteString(" first reader slow")
+	}
+	return b.String()
+}
+
+// runReaders builds the readers of v for concretisation c and checks
+// NewDefaultStorage against the prediction.
+func runReaders(c *stConc, v *rdVec, rng *rand.Rand, slow bool) (what string) {
+	readers := make([]io.Reader, len(v.Readers))
+	for i, recs := range v.Readers {
+		data := c.render(rng, recs)
+		var r io.Reader
+		switch {
+		case slow && i == 0:
+			r = &slowReader{data: data}
+		case rng.IntN(2) == 0:
+			r = bytes.NewReader(data)
+		default:
+			r = newReader(data, frag{plan: []int{1 + rng.IntN(7)}, eofWithData: rng.IntN(2) == 0}, "reader", rng.IntN(2) == 0)
+		}
+		if v.Fail == i+1 {
+			r = failAtEnd{r}
+		}
+		readers[i] = r
+	}
+	var s *hostsfile.DefaultStorage
+	var err error
+	if pv, p := vh.Try(func() { s, err = hostsfile.NewDefaultStorage(readers...) }); p {
+		return fmt.Sprintf("panic: %v", pv)
+	}
+	if v.Fail > 0 {
+		switch {
+		case err == nil:
+			return fmt.Sprintf("reader %d failed but NewDefaultStorage returned no error", v.Fail-1)
+		case !errors.Is(err, errInjected):
+			return fmt.Sprintf("the error %q does not wrap the reader's error", err)
+		case s != nil:
+			return "a storage is returned together with the error"
+		}
+		// The message names the failing reader by index.
+		if i := strings.Index(err.Error(), "reader at index "); i >= 0 {
+			var idx int
+			if _, serr := fmt.Sscanf(err.Error()[i:], "reader at index %d", &idx); serr == nil && idx != v.Fail-1 {
+				return fmt.Sprintf("the error %q names reader %d, reader %d failed", err, idx, v.Fail-1)
+			}
+		}
+		return ""
+	}
+	if err != nil || s == nil {
+		return fmt.Sprintf("NewDefaultStorage returned (%v, %v)", s, err)
+	}
+	return checkStorage(s, c, v.Names, v.Addrs)
+}
+
+func replayReaders(args []string) error {
+	if len(args) != 2 {
+		return fmt.Errorf("usage: replay-readers <vectors> <result>")
+	}
+	res, err := vh.NewResult(args[1])
+	if err != nil {
+		return err
+	}
+	var mu sync.Mutex
+	evals, slowRuns, failRuns := 0, 0, 0
+	onlySlow := os.Getenv("VERIF_C08_ONLY_SLOW") != ""
+	n, dd, err := c07.ParallelVectors(args[0], func(raw []byte) error {
+		var v rdVec
+		if err := json.Unmarshal(raw, &v); err != nil {
+			return err
+		}
+		h := c07.Hash64(raw)
+		ns := 0
+		for ci := range stConcs {
+			c := &stConcs[ci]
+			rng := c07.RandFor(raw, uint64(ci))
+			// (a failing reader: two concretisations are enough; VERIF_C08_ONLY_SLOW
+			// is a debugging knob that keeps only the slow-first-reader runs)
+			skip := (v.Fail > 0 && ci%3 != 0) || onlySlow
+			if skip {
+			} else if what := runReaders(c, &v, rng, false); what != "" {
+				res.Mismatch(readersKey(c, &v, false), what, map[string]any{"readers": v.Readers, "fail": v.Fail, "spec_names": v.Names, "spec_addrs": v.Addrs})
+			}
+			// Order-sensitive cases also with a slow first reader (one
+			// concretisation of every 4th such vector: the run sleeps ~10 ms).
+			if v.Sens && v.Fail == 0 && h%4 == 0 && int(h>>8)%len(stConcs) == ci {
+				ns++
+				if what := runReaders(c, &v, rng, true); what != "" {
+					res.Mismatch(readersKey(c, &v, true), what, map[string]any{"readers": v.Readers, "slow_first_reader": true, "spec_names": v.Names, "spec_addrs": v.Addrs})
+				}
+			}
+		}
+		mu.Lock()
+		slowRuns += ns
+		switch {
+		case onlySlow:
+			evals += ns
+		case v.Fail > 0:
+			failRuns += 2
+			evals += 2
+		default:
+			evals += len(stConcs) + ns
+		}
+		mu.Unlock()
+		return nil
+	})
+	if err != nil {
+		return err
+	}
+	return res.Close(map[string]any{"vectors": n, "replayed": evals, "distinct_nontrivial": dd.N(), "slow_first_reader_runs": slowRuns, "failing_reader_runs": failRuns})
 }
 
 // ===================================================================== parse
@@ -1156,6 +1464,11 @@ type stEv struct {
 	O2   stObs    `json:"o2"`
 	Eq12 bool     `json:"eq12"`
 	Eq21 bool     `json:"eq21"`
+	// RecOK: Add left the record and the caller's (reused) names buffer alone;
+	// KeptOK: no element of a result slice returned earlier has changed.
+	RecOK  bool   `json:"rec_ok"`
+	KeptOK bool   `json:"kept_ok"`
+	Note   string `json:"note"`
 }
 
 // nameUniverse: id -> spellings differing in case only.
@@ -1273,8 +1586,25 @@ func recordStorage(args []string) error {
 		st := [3]*hostsfile.DefaultStorage{}
 		st[1], _ = hostsfile.NewDefaultStorage()
 		st[2], _ = hostsfile.NewDefaultStorage()
+		mem := newCallerMem()
+		note := ""
 		emit := func(e stEv) bool {
 			pv, panicked := vh.Try(func() {
+				e.RecOK, e.KeptOK, e.Note = true, true, ""
+				if note != "" {
+					e.RecOK, e.Note = false, note
+					note = ""
+				}
+				if w := mem.verifyKept(); w != "" {
+					e.KeptOK, e.Note = false, w
+				}
+				if len(mem.keptNames) < 400 {
+					for k := 1; k <= 2; k++ {
+						mem.keepByAddr(st[k], u.addrs[1+rng.IntN(len(u.addrs)-1)])
+						id := 1 + rng.IntN(len(u.names)-1)
+						mem.keepByName(st[k], u.names[id][rng.IntN(len(u.names[id]))])
+					}
+				}
 				e.O1, e.O2 = u.observe(st[1]), u.observe(st[2])
 				e.Eq12, e.Eq21 = st[1].Equal(st[2]), st[2].Equal(st[1])
 			})
@@ -1301,22 +1631,23 @@ func recordStorage(args []string) error {
 				e.N = append(e.N, u.byName[sp])
 				names = append(names, sp)
 			}
-			rec := &hostsfile.Record{Addr: u.addrs[e.A], Names: names, Source: "t"}
+			// every record is built in the one reused names buffer
+			addr := u.addrs[e.A]
 			if mirror && rng.IntN(8) > 0 {
 				// apply to both, logging two events
 				e.S = 1
-				st[1].Add(rec)
+				note = mem.add(st[1], addr, names, "t")
 				if !emit(e) {
 					break
 				}
 				e.S = 2
-				st[2].Add(&hostsfile.Record{Addr: rec.Addr, Names: slices.Clone(names)})
+				note = mem.add(st[2], addr, names, "t")
 				if !emit(e) {
 					break
 				}
 				continue
 			}
-			st[e.S].Add(rec)
+			note = mem.add(st[e.S], addr, names, "t")
 			if !emit(e) {
 				break
 			}
